@@ -1497,3 +1497,21 @@ MA('C10', 'box projection reads the input after clipping below', PROXF,
    'proximal_box_constraint.ProxOpBoxConstraint._call',
    'out.ufuncs.minimum(upper, out=out)',
    'out.assign(x.ufuncs.minimum(upper) + (out - x))', 'ProxOpBoxConstraint')
+MA('C08', 'squared norm conjugate with factor 1/2', DFUN,
+   'L2NormSquared.convex_conj',
+   'return 1.0 / 4 * L2NormSquared(self.domain)',
+   'return 1.0 / 2 * L2NormSquared(self.domain)', 'L2NormSquared[')
+MA('C08', 'KL conjugate forgets the prior', DFUN,
+   'KullbackLeibler.convex_conj',
+   'return KullbackLeiblerConvexConj(self.domain, self.prior)',
+   'return KullbackLeiblerConvexConj(self.domain)',
+   'KullbackLeibler[prior')
+MA('C08', 'cross entropy conjugate forgets the prior', DFUN,
+   'KullbackLeiblerCrossEntropy.convex_conj',
+   'return KullbackLeiblerCrossEntropyConvexConj(self.domain, self.prior)',
+   'return KullbackLeiblerCrossEntropyConvexConj(self.domain)',
+   'KullbackLeiblerCrossEntropy[prior')
+MA('C08', 'KL conjugate value with log(1 + x)', DFUN,
+   'KullbackLeiblerConvexConj._call',
+   'res = -np.log(1 - x).inner(self.domain.one())',
+   'res = -np.log(1 + x).inner(self.domain.one())', 'KullbackLeibler[')
